@@ -244,7 +244,8 @@ func VerifC15Selection() {
 			apply = func() (*Project, error) { return p.WithoutUnnecessaryResources(), nil }
 		}
 		q, err := apply()
-		vrtMapOrder(1)
+		// repeated under another order of the library's map ranges (sorted descending; insertion order is ascending here)
+		vrtMapOrder(4)
 		q2, err2 := apply()
 		vrtMapOrder(0)
 		vrtObserve("err", err != nil)
